@@ -215,9 +215,13 @@ def signature(S: L.Schema, F: str, kind: str, phase: str, observed: str, v, shp=
     if F == "toml" and (phase in ("decode", "roundtrip") or phase_class == "decode-or-roundtrip"):
         hits = none_fields_without_none_default(S, v)
         if hits:
-            # (a union position swallows the member's MissingField and reports ValueError(<the document>))
-            if any(f'MissingField: Field "{h}"' in observed for h in hits) or \
-                    (phase != "roundtrip" and not phase.endswith("-doc") and ("<- ValueError: {" in observed or observed.startswith("ValueError: {"))):
+            # decode raised on a document from which a None-valued key without a None default was omitted.  The
+            # MissingField is not always visible in the exception chain (a union position swallows it and raises
+            # InvalidFieldValue / ValueError(<document>) `from None`; deep nesting truncates the chain), so any
+            # decode *exception* of these classes on such a value is attributed to the finding; wrong *values* and
+            # every value without such a field stay unattributed.
+            if phase != "roundtrip" and not phase.endswith("-doc") and \
+                    observed.split(":")[0] in ("MissingField", "InvalidFieldValue", "ValueError"):
                 sig["kind"] = "toml-omitted-none-field-without-none-default"
             elif phase == "roundtrip" or (phase_class == "decode-or-roundtrip" and "Error" not in observed.split(":")[0]):
                 sig["kind"] = "toml-omitted-none-field-without-none-default"
